@@ -17,7 +17,7 @@
    [live g]   = identifiers allocated and not yet freed (offsets in the map + min)
    [step g o] = one API call with loop fuel (number of live ids) + 1 <= valueRange + 1
                 (C20_no_hang: any fuel >= valueRange + 1 gives the same result). *)
-From NV Require Import Lib.Base C20.Model C20.Spec C20.Proofs.
+From NV Require Import Lib.Base C20.Model C20.Spec C20.Proofs C20.Proofs_inrange.
 Open Scope Z_scope.
 
 (* the invariant holds for a fresh generator over any admissible [min, max] *)
@@ -96,6 +96,37 @@ Theorem C20_histories_from : forall ops g, Inv g ->
     spec_run (minValue g) (maxValue g) (live g) ops rs (live g').
 Proof. exact histories_refine. Qed.
 
+(* what Allocate_inRange(a, b) computes, in closed form ([cyc R s k] = (s + k) mod R).  With
+   s = a mod valueRange (the arguments are OFFSETS, not identifiers) and o = the offset before
+   the call: it returns min + cyc s k for the first position k >= 0, cyclically from s, that is
+   not in the map, provided none of the positions 1..k is o or b; otherwise it fails at the
+   first position j >= 1 that is o or b, leaving the offset there and the map unchanged.
+   So it may fail although identifiers are free, and b is no upper bound (examples below);
+   the property asks only for bounds and freshness, which C20_in_bounds / C20_fresh give. *)
+Theorem C20_inrange_meaning : forall fuel g a b,
+  Inv g -> (length (usedMap g) + 1 <= fuel)%nat ->
+  let R := valueRange g in let s := a mod R in let o := offset g in
+  (exists k, 0 <= k < R /\ ~ In (cyc R s k) (usedMap g) /\
+      (forall i, 0 <= i < k -> In (cyc R s i) (usedMap g)) /\
+      (forall i, 1 <= i <= k -> cyc R s i <> o /\ cyc R s i <> b) /\
+      Allocate_inRange fuel g a b =
+        Ok (mkgen (minValue g) (maxValue g) R (cyc R s (k + 1)) (cyc R s k :: usedMap g),
+            Some (cyc R s k + minValue g)))
+  \/ (exists j, 1 <= j <= R /\
+      (forall i, 0 <= i < j -> In (cyc R s i) (usedMap g)) /\
+      (forall i, 1 <= i < j -> cyc R s i <> o /\ cyc R s i <> b) /\
+      (cyc R s j = o \/ cyc R s j = b) /\
+      Allocate_inRange fuel g a b = Ok (with_offset g (cyc R s j), None)).
+Proof. exact Allocate_inRange_meaning. Qed.
+
+Example C20_inrange_fails_though_free :
+  run_ops (init 0 9) [OpAllocate; OpAllocateInRange 0 5] = Ok (mkgen 0 9 10 1 [0], [RId 0; RFail]).
+Proof. exact inRange_fails_though_free. Qed.
+
+Example C20_inrange_max_is_not_a_bound :
+  run_ops (init 0 9) [OpAllocateInRange 7 3] = Ok (mkgen 0 9 10 8 [7], [RId 7]).
+Proof. exact inRange_max_is_not_a_bound. Qed.
+
 (* wrap64 is two's-complement reduction *)
 Theorem C20_wrap64 : forall z, wrap64 z = (z + 2 ^ 63) mod 2 ^ 64 - 2 ^ 63.
 Proof. exact wrap64_mod. Qed.
@@ -129,5 +160,6 @@ Print Assumptions C20_free.
 Print Assumptions C20_no_hang.
 Print Assumptions C20_histories.
 Print Assumptions C20_histories_from.
+Print Assumptions C20_inrange_meaning.
 Print Assumptions C20_wrap64.
 Print Assumptions C20_range_hypothesis_needed.
